@@ -328,7 +328,9 @@ class Parser:
 
 
     def closure(self):
-        """`|x: T, y: U| body` (typed parameters only, no `move`); body = block or expression"""
+        """`|x: T, y: U| body` (typed parameters, no `move`); body = block or expression.  Iterator adaptors (`for_each`) also take
+        untyped parameters and one flat tuple pattern: `|c| ..`, `|(r, c)| ..`, `|(r, &c)| ..` (parameter type None / pattern); their body
+        may be a single assignment `*r = e`"""
         self.expect("|"); params = []
         def pat():
             # parameter pattern: `x`, `&x`, `(p, q)`  (phase 4: iterator closures `|c|`, `|(r, &c)|`)
@@ -634,6 +636,10 @@ def assigned(x, acc=None, declared=None):
         elif x[0] == "ref" and x[1]:
             r = lvalue_root(x[2])
             if r: acc.add(r)
+        elif x[0] == "mcall" and x[2] == "copy_from_slice":
+            r = lvalue_root(x[1])
+            if r: acc.add(r)
+            assigned(x[3], acc, declared)
         elif x[0] == "call":
             for a in x[2]:
                 assigned(a, acc, declared)
@@ -1006,6 +1012,8 @@ class FnLower:
             if b[0] == "path" and len(b[1]) == 1 and self.lookup(env, b[1][0]).kind in ("w", "mod", "struct", "mulop") and getattr(env[b[1][0]], "isref", False):
                 return self.ex_m(b, env, ops)             # `*r` of a shared reference parameter: the value
             self.fail("dereference of something that is not a reference parameter")
+        if k == "index" and strip_paren(e[2])[0] == "range":
+            return ("v", self.list_arg(e, env, ops, "sub-slice"))
         if k == "index":
             b = strip_paren(e[1]); ix = strip_paren(e[2])
             if b[0] == "mcall" and b[2] == "const_ratio" and not b[3]:
@@ -1146,6 +1154,8 @@ class FnLower:
             lean = env[recv[1][0]].lean
             if m == "value" and not args: return ("v", Val(f"{lean}.value", "u64", [lean]))
             if m == "bit_count" and not args: return ("v", Val(f"{lean}.bits", "usize", [lean]))
+            sig = self.tr.msigs.get(("Modulus", m))
+            if sig is not None: return self.call_sig(sig, f"Modulus::{m}", [recv] + list(args), env, ops)
             self.fail(f"Modulus method {m}()")
         if recv[0] == "path" and len(recv[1]) == 1 and recv[1][0] in env and env[recv[1][0]].kind in ("struct", "mulop"):
             v = env[recv[1][0]]; sname = v.ty if v.kind == "struct" else "MultiplyU64ModOperand"
@@ -1537,11 +1547,12 @@ class FnLower:
                     if v.kind == "outarr" and not v.init[j]: self.fail(f"call to {fname}: reads `{v.rust}[{j}]` before assignment")
                     thunks.append(lambda n=v.lean[j]: Val(n, "u64", [n]))
             elif kind == "list":
+                thunks.append(lambda a=a: self.list_arg(a, env, ops, f"call to {fname}"))
+            elif kind == "modlist":
                 a2 = strip_paren(a)
                 if a2[0] == "ref": a2 = strip_paren(a2[2])
-                if a2[0] == "path" and len(a2[1]) == 1 and self.lookup(env, a2[1][0]).kind == "list":
-                    thunks.append(lambda a2=a2: Val(env[a2[1][0]].lean, "list"))
-                else: thunks.append(lambda a=a: self.list_arg(a, env, ops, f"call to {fname}"))
+                if not (a2[0] == "path" and len(a2[1]) == 1 and self.lookup(env, a2[1][0]).kind == "modlist"): self.fail(f"call to {fname}: `&[Modulus]` argument")
+                thunks.append(lambda a2=a2: Val(env[a2[1][0]].lean, "modlist", [env[a2[1][0]].lean]))
             elif kind == "mlist":
                 cell = {}
                 def th(a=a, cell=cell):
@@ -1673,6 +1684,18 @@ class FnLower2(FnLower):
             if e[0] == "blockexpr":
                 rest = K(lambda env2, _v, ops2: self.stmts(stmts, i + 1, tail, env2, ops2, k, nested), self.live_rest(stmts, i + 1, tail, k), toplevel=k.toplevel)
                 return self.stmts(e[1][0], 0, e[1][1], env, ops, rest, True)
+            if e[0] == "mcall" and e[2] == "copy_from_slice" and len(e[3]) == 1:
+                # `x[a..b].copy_from_slice(&y[c..d])`: both sub-slices are bounds-checked (target first), lengths must agree (else panic)
+                tgt = strip_paren(e[1])
+                if not (tgt[0] == "index" and strip_paren(tgt[2])[0] == "range"): self.fail("copy_from_slice target is not a sub-slice", ln)
+                tb = strip_paren(tgt[1])
+                if not (tb[0] == "path" and len(tb[1]) == 1 and self.lookup(env, tb[1][0]).kind == "list" and env[tb[1][0]].mut): self.fail("copy_from_slice into something that is not a mutable slice variable", ln)
+                v = env[tb[1][0]]
+                lo, hi = self.slice_bounds(v, strip_paren(tgt[2]), env, ops)
+                t0 = self.tmp(); ops.append(("bind", t0, f"slice {v.lean} {lo} {hi}")); self.monadic_used = True
+                src = self.list_arg(e[3][0], env, ops, "copy_from_slice")
+                ops.append(("bind", v.lean, f"copySlice {v.lean} {lo} {hi} {src.atom}"))
+                return nxt()
             if e[0] in ("call", "mcall"):
                 self.ex(e, env, ops); return nxt()
             if e[0] == "assert":
@@ -2286,7 +2309,7 @@ class FnTranslate(FnLower2):
                 for y in x: find_closures(y)
             elif isinstance(x, tuple) and x:
                 if x[0] == "let" and isinstance(x[1], str) and x[4] is not None and strip_paren(x[4])[0] == "closure":
-                    c = strip_paren(x[4]); CLOSURE_CAPS[x[1]] = uses([c[2][0], c[2][1]]) - {q[0] for q in c[1]}
+                    c = strip_paren(x[4]); CLOSURE_CAPS[x[1]] = uses([c[2][0], c[2][1]]) - {q[0] for q in c[1] if isinstance(q[0], str)}
                 for y in x:
                     if isinstance(y, (tuple, list)): find_closures(y)
         find_closures([fn["body"][0], fn["body"][1]])
@@ -2341,6 +2364,8 @@ class FnTranslate(FnLower2):
                 params.append(("mod",)); env[pn] = Var("mod", lean, rust=pn); env[pn].isref = True; self.binders.append(f"({lean} : Modulus)")
             elif pt[0] == "ref" and not pt[1] and pt[2] == ("name", "MultiplyU64ModOperand"):
                 params.append(("mulop",)); env[pn] = Var("mulop", lean, rust=pn); env[pn].isref = True; self.binders.append(f"({lean} : MulOperand)")
+            elif pt[0] == "ref" and not pt[1] and pt[2][0] == "arr" and pt[2][1] == ("name", "Modulus") and pt[2][2] is None:
+                params.append(("modlist",)); env[pn] = Var("modlist", lean, rust=pn); self.binders.append(f"({lean} : List Modulus)")
             elif pt[0] == "ref" and not pt[1] and pt[2][0] == "arr" and pt[2][1] == ("name", "u64"):
                 w = const_index_width(body, pn)
                 if w is None and pt[2][2] is None:
@@ -3047,6 +3072,31 @@ TABLE_SCALING = [
     {"file": SV, "fn": "multiply_sub_plain", "model": "multiplySubPlain (Model/Scheme.lean)", "opaque": ["Plaintext", "ContextData"], "abstract": ABS_SCALING, "alias_abstract": True},
 ]
 
+# Gen/PolyFns.lean (phase 4b): src/util/polysmallmod.rs, the coefficient-wise polynomial arithmetic of the evaluator (one modulus: the
+# kernels; `_p`: all components of one polynomial; `_ps`: several polynomials) on flat `&[u64]` buffers
+PM = "src/util/polysmallmod.rs"
+POLY_PRELUDE = """/-- bounds-checked read of a read-only slice of structs (`&moduli[i]`) -/
+def idxT {α : Type} (l : List α) (i : Nat) : R α := match l[i]? with | some x => .ok x | none => .error .oob
+/-- `&s[a..b]`: panics unless `a <= b <= s.len()` -/
+def slice (l : List Nat) (a b : Nat) : R (List Nat) := if a ≤ b ∧ b ≤ l.length then .ok ((l.drop a).take (b - a)) else .error .oob
+/-- write a callee's result for `&mut s[a..]` back (the callee cannot change the length of the sub-slice) -/
+def splice (l : List Nat) (a : Nat) (s : List Nat) : List Nat := l.take a ++ s ++ l.drop (a + s.length)
+/-- `x[lo..hi].copy_from_slice(src)` (bounds already checked): panics unless the lengths agree -/
+def copySlice (l : List Nat) (lo hi : Nat) (src : List Nat) : R (List Nat) :=
+  if src.length = hi - lo then .ok (splice l lo src) else .error .refused
+"""
+def _pk(fn, **kw): return dict({"file": PM, "fn": fn, "lean": "poly_" + fn, "iters": True}, **kw)
+POLY_KERNELS = ["modulo", "negate", "negate_inplace", "add", "add_inplace", "sub", "sub_inplace", "add_scalar", "add_scalar_inplace",
+                "sub_scalar", "sub_scalar_inplace", "multiply_scalar", "multiply_scalar_inplace", "multiply_operand", "multiply_operand_inplace",
+                "dyadic_product", "dyadic_product_inplace", "negacyclic_shift", "negacyclic_multiply_mononomial",
+                "negacyclic_multiply_mononomial_inplace"]
+POLY_WRAPPED = ["modulo", "negate", "negate_inplace", "add", "add_inplace", "sub", "sub_inplace", "multiply_scalar", "multiply_scalar_inplace",
+                "multiply_operand", "multiply_operand_inplace", "dyadic_product", "dyadic_product_inplace", "negacyclic_shift",
+                "negacyclic_multiply_mononomial", "negacyclic_multiply_mononomial_inplace"]
+TABLE_POLY = [{"file": "src/modulus.rs", "fn": "reduce", "impl": "Modulus", "lean": "mod_reduce", "model": "barrett64"},
+              {"file": UB, "fn": "set_uint", "model": "(copy of a prefix)"}] + \
+             [_pk(k) for k in POLY_KERNELS] + [_pk(k + suf) for k in POLY_WRAPPED for suf in ("_p", "_ps")]
+
 FILES += [
     ("WordFns.lean", {"ns": "GenW", "imports": ["Heathcliff.Model.Word"], "table": TABLE, "prelude": PRELUDE}),
     ("NttFns.lean", {"ns": "GenN", "imports": ["Heathcliff.Gen.WordFns"], "table": TABLE_NTT, "opens": ["HC.GenW"]}),
@@ -3060,6 +3110,7 @@ FILES += [
         "InvalidPlainModulusBitCount": {"consts": {"HE_PLAIN_MOD_BIT_COUNT_MAX": UB, "HE_PLAIN_MOD_BIT_COUNT_MIN": UB}, "abstract": [("plain_modulus.value()", "t", "Nat")]},
                         }}),
     ("EvalFns.lean", {"ns": "GenE", "imports": ["Heathcliff.Gen.WordFns"], "table": TABLE_EVAL, "opens": ["HC.GenW"]}),
+    ("PolyFns.lean", {"ns": "GenP", "imports": ["Heathcliff.Gen.WordFns"], "table": TABLE_POLY, "opens": ["HC.GenW"], "prelude": POLY_PRELUDE}),
     ("ScalingFns.lean", {"ns": "GenS", "imports": ["Heathcliff.Gen.WordFns"], "table": TABLE_SCALING, "opens": ["HC.GenW"], "prelude": SCALING_PRELUDE}),
     ("RnsFns.lean", {"ns": "GenR", "imports": ["Heathcliff.Gen.WordFns"], "table": TABLE_RNS, "opens": ["HC.GenW"], "prelude": PRELUDE_RNS}),
 ]
